@@ -3,8 +3,8 @@
 set -e
 prop=$1; rel=$2; expr=$3
 tmp=$(mktemp /tmp/mutXXXX.go)
-sed -E "$expr" /repo/$rel > $tmp
-if cmp -s $tmp /repo/$rel; then echo "MUTATION DID NOT APPLY"; rm $tmp; exit 3; fi
-diff <(cat /repo/$rel) $tmp | head -6
-/verif/bin/verifsa check -property $prop -no-evidence -overlay $rel=$tmp | grep -v '^    ' | head -${4:-12}
+sed -E "$expr" ${REPO:-/repo}/$rel > $tmp
+if cmp -s $tmp ${REPO:-/repo}/$rel; then echo "MUTATION DID NOT APPLY"; rm $tmp; exit 3; fi
+diff <(cat ${REPO:-/repo}/$rel) $tmp | head -6
+/verif/bin/verifsa check -property $prop -repo ${REPO:-/repo} -no-evidence -overlay $rel=$tmp | grep -v '^    ' | head -${4:-12}
 rm $tmp
